@@ -73,6 +73,10 @@ func c17wrap(k byte, rng *core.Rng, variant int) hs.Wrap {
 		}
 		return hs.Wrap{K: 'o', S: txt("file") + ".go", Line: core.Pick(rng, []int32{0, 1, 7, 258, 65536, 1<<31 - 1, 16777216, 256, 10}), Fn: txt("fn")}
 	case 'n':
+		if rng.Intn(3) == 0 {
+			// constraint names as applications write them: qualified, quoted, dotted, numeric - a name is a text
+			return hs.Wrap{K: 'n', S: core.Pick(rng, []string{"public.users.users_pk", "users.users_email_key", "v1.2", "1.5", "\"Orders\".\"orders_pkey\"", "a.b.c.d", ".leading", "trailing.", "fk_orders__customer_id", "chk: amount > 0", "uq(orders.id, line)"})}
+		}
 		return hs.Wrap{K: 'n', S: txt("constraint")}
 	}
 	return hs.Wrap{K: 'w', S: txt("ctx")}
